@@ -176,6 +176,20 @@ def include_cases():
         for cnt in (31, 32, 33, 63, 64, 70):
             cs.append(('inc-many%d' % cnt, many[:cnt], entry, b''.join(b'@include "f%02d.cfg"\n' % i for i in range(cnt))))
         cs.append(('inc-many33-then-error', many, entry, b''.join(b'@include "f%02d.cfg"\n' % i for i in range(33)) + b'x = ;\n'))
+    # a custom include function that expands one directive to several files (the default one never does): buffers and
+    # streams of every file but the last are released when the scanner moves on; errors, missing files and NULL/empty
+    # expansions in the middle of the list
+    fn1 = 'set_include_fn 1'
+    trio = [mk(b'a.cfg', b'a = 1;\n'), mk(b'b.cfg', b'b = 2;\nbb = (1, 2);\n'), mk(b'c.cfg', b'c = 3;')]
+    for entry in ENTRIES:
+        cs.append(('multi-ok', [fn1] + trio, entry, b'x = 0;\n@include "a.cfg|b.cfg|c.cfg"\ny = 1;\n'))
+        cs.append(('multi-twice', [fn1] + trio, entry, b'@include "a.cfg|b.cfg"\n@include "c.cfg|c.cfg|c.cfg|c.cfg"\n' * 3))
+        cs.append(('multi-error-in-2nd', [fn1] + trio + [mk(b'bad.cfg', b'p = ;\n')], entry, b'@include "a.cfg|bad.cfg|c.cfg"\n'))
+        cs.append(('multi-missing-2nd', [fn1] + trio, entry, b'@include "a.cfg|gone.cfg|c.cfg"\n'))
+        cs.append(('multi-missing-last', [fn1] + trio, entry, b'@include "a.cfg|b.cfg|gone.cfg"\nz = 1;\n'))
+        cs.append(('multi-empty-expansion', [fn1], entry, b'@include ""\na = 1;\n@include "?x"\nb = 2;\n'))
+        cs.append(('multi-fn-error', [fn1], entry, b'a = 1;\n@include "!boom"\nb = 2;\n'))
+        cs.append(('multi-nested', [fn1] + trio + [mk(b'n.cfg', b'@include "a.cfg|b.cfg"\nn = 1;\n')], entry, b'@include "n.cfg|c.cfg"\n'))
     cs.append(('file-missing', [], 'file-raw', b'nofile.cfg'))
     cs.append(('file-dir', ['mkdir ' + H(b'adir')], 'file-raw', b'adir'))
     cs.append(('file-empty-name', [], 'file-raw', b''))
